@@ -22,6 +22,35 @@ type raceReport struct {
 	text   string
 	owner  [2]string // "teleport" | "harness" | "other"
 	wg     bool      // the report is the WaitGroup-misuse model, not a memory access
+	// overlap: one of the two goroutines is inside, or was started by, a redial that a *writer* began
+	// (AsyncCall/Push/reply write -> redialForClient) rather than the reader of the lost connection.  Such a
+	// redial runs beside the reader's own handling of the same loss: the open redial-ownership defect
+	// (known findings, C13), which is classed apart so that it never covers another race of the same unit.
+	overlap bool
+}
+
+// writerSideRedial reports whether any stack of a race report (access or goroutine-creation stacks) has a
+// redialForClient frame called from anything but readDisconnected.
+func writerSideRedial(blk string) bool {
+	var names []string
+	for _, line := range strings.Split(blk, "\n") {
+		l := strings.TrimSpace(line)
+		if l == "" || strings.HasPrefix(l, "/") || strings.Contains(l, ".go:") || !strings.HasSuffix(l, ")") {
+			if strings.HasPrefix(l, "Goroutine ") || strings.Contains(l, " at 0x") {
+				names = append(names, "")
+			}
+			continue
+		}
+		if j := strings.LastIndex(l, "("); j > 0 {
+			names = append(names, l[:j])
+		}
+	}
+	for i, n := range names {
+		if strings.HasSuffix(n, "(*session).redialForClient") && i+1 < len(names) && !strings.HasSuffix(names[i+1], "(*session).readDisconnected") {
+			return true
+		}
+	}
+	return false
 }
 
 // ownerOf walks one stack from the access outwards.  It returns who owns the access, the owning teleport
@@ -107,6 +136,7 @@ func parseRaceLog(text string) []raceReport {
 		r.owner[0], r.a, r.fa, w0 = ownerOf(stacks[0])
 		r.owner[1], r.b, r.fb, w1 = ownerOf(stacks[1])
 		r.wg = w0 || w1
+		r.overlap = writerSideRedial(blk)
 		if len(blk) > 1500 {
 			blk = blk[:1500]
 		}
@@ -114,6 +144,30 @@ func parseRaceLog(text string) []raceReport {
 		out = append(out, r)
 	}
 	return out
+}
+
+// raceLogSize returns the current size of this process's race log (0 if there is none).
+func raceLogSize() int64 {
+	base := os.Getenv("VERIF_RACELOG")
+	if base == "" || !simrt.RaceEnabled {
+		return 0
+	}
+	st, err := os.Stat(fmt.Sprintf("%s.%d", base, os.Getpid()))
+	if err != nil {
+		return 0
+	}
+	return st.Size()
+}
+
+// raceMark, if > 0, is where the scenario of the current run ended (set by the scheduler's OnTeardown): what the detector writes after it comes
+// from the tear-down of the run, in which the scheduler lets unwinding tasks run their deferred functions
+// straight through sim points (a Lock no longer waits), so exclusion no longer holds and reports mean nothing.
+var raceMark int64
+
+func init() {
+	if simrt.RaceEnabled {
+		simrt.OnTeardown = func() { raceMark = raceLogSize() }
+	}
 }
 
 // collectRaces returns failure lines for teleport-owned races reported since the last call.
@@ -135,9 +189,14 @@ func collectRaces() (fails []string, harness int) {
 	if st.Size() <= raceLogOff {
 		return nil, 0
 	}
-	buf := make([]byte, st.Size()-raceLogOff)
+	end := st.Size()
+	if raceMark > raceLogOff && raceMark < end {
+		end = raceMark
+	}
+	buf := make([]byte, end-raceLogOff)
 	f.ReadAt(buf, raceLogOff)
 	raceLogOff = st.Size()
+	raceMark = 0
 	seen := map[string]bool{}
 	for _, r := range parseRaceLog(string(buf)) {
 		if r.owner[0] == "teleport" && r.owner[1] == "teleport" {
@@ -152,6 +211,9 @@ func collectRaces() (fails []string, harness int) {
 			if r.wg {
 				cls = "C14/waitgroup-misuse:" + oa + "|" + ob
 				msg = "WaitGroup.Add from a zero counter is not ordered with a Wait that blocks: "
+			} else if r.overlap {
+				cls = "C14/race-in-overlapping-redial:" + oa + "|" + ob
+				msg = "a redial begun by a writer runs beside the reader's handling of the same loss; accesses not ordered by happens-before: "
 			}
 			if !seen[cls] {
 				seen[cls] = true
